@@ -128,6 +128,21 @@ func main() {
 	}
 	emit(cfg, "dhcp_faults", "dhcp", df, extra(map[string]interface{}{"exhaustive": cfg.Thorough(),
 		"note": "fault injection: each kernel map the teardown depends on (subscriber_pools, circuit_id_map, circuit_id_subscribers, qos_egress, qos_ingress, subscriber_nat; some pairs) is full during establishment x prefix x ending path; then a second client under the same fault"}))
+	var dw, dl []vh.Case
+	for i, c := range enumWindow() {
+		if cfg.Thorough() || i%2 == int(cfg.Seed%2) {
+			dw = append(dw, r.k.runDHCP(c))
+		}
+	}
+	emit(cfg, "dhcp_window", "dhcp", dw, extra(map[string]interface{}{"exhaustive": cfg.Thorough(),
+		"note": "the owner returns around the expiry of its lease before the reaper's pass: age just short of / just past the lease time x {REQUEST, DISCOVER, DISCOVER+REQUEST, REQUEST without option 82, nothing} x tick x ending path x final ticks; then a second client"}))
+	for i, c := range enumFlush() {
+		if cfg.Thorough() || i%2 == int(cfg.Seed%2) {
+			dl = append(dl, r.k.runDHCP(c))
+		}
+	}
+	emit(cfg, "dhcp_flush", "dhcp", dl, extra(map[string]interface{}{"exhaustive": cfg.Thorough(),
+		"note": "each kernel map the teardown deletes from is emptied behind the managers' back mid-session (x renewal afterwards) x ending path x second ending; then two more clients"}))
 	nr, ng, maxOps := 70, 50, 10
 	if cfg.Thorough() {
 		nr, ng, maxOps = 2500, 1500, 18
@@ -145,7 +160,9 @@ func main() {
 	// ---- pppoe
 	var pp, pr, pg []vh.Case
 	for i, c := range enumPPPoE() {
-		if cfg.Thorough() || i%5 == int(cfg.Seed%5) {
+		// quick: stratified — every (configuration, establishment prefix, first ending path) with ONE second
+		// ending path (8 of them), rotating with the group and the seed
+		if cfg.Thorough() || i%8 == (i/8+int(cfg.Seed))%8 {
 			pp = append(pp, r.k.runPPPoE(c))
 		}
 	}
